@@ -426,12 +426,18 @@ class PeriodicTransform(BaseTransform):
     def fit(self, x):
         return self.forward(x)[0]
 
-    def forward(self, x):
+    def _wrap(self, x):
         y = self.lower + (x - self.lower) % self._width
+        # Rounding can give exactly `upper` for inputs just below `lower`;
+        # fold it back so that the result lies in [lower, upper)
+        return self.xp.where(y >= self.upper, self.lower, y)
+
+    def forward(self, x):
+        y = self._wrap(x)
         return y, self.xp.zeros(y.shape[0], device=get_device(y))
 
     def inverse(self, y):
-        x = self.lower + (y - self.lower) % self._width
+        x = self._wrap(y)
         return x, self.xp.zeros(x.shape[0], device=get_device(x))
 
     def config_dict(self):
